@@ -27,7 +27,8 @@ def _design(ctx, module, cfg, expect_violation=None, workers="auto", timeout=900
         r.require_ok("design config %s" % cfg)
         ctx.log("TLC %s/%s: %d states, %d distinct, no error (%.1fs)" % (module, cfg, r.generated, r.distinct, r.wall))
     else:
-        if ("Invariant %s is violated" % expect_violation) not in r.out:
+        names = [expect_violation] if isinstance(expect_violation, str) else list(expect_violation)
+        if not any(("Invariant %s is violated" % n) in r.out for n in names):
             sys.stderr.write(r.tail(30) + "\n")
             raise Inconclusive("faulty variant %s was expected to violate %s and did not" % (cfg, expect_violation))
         ctx.log("TLC %s/%s: faulty variant refuted (%s violated) as expected" % (module, cfg, expect_violation))
@@ -324,4 +325,101 @@ def _c37_final(ctx, v, recs):
     return False
 
 
-FAMILY = {"C41": c41, "C31": c31, "C37": c37}
+# ------------------------------------------------------------------------------------------ C39
+def _c39_judge(ctx, trace, name, per=3000):
+    """TLC (TraceWsStream) over an ndjson file, cut into chunks judged in parallel"""
+    lines = open(trace).read().splitlines()
+    chunks = [lines[i:i + per] for i in range(0, len(lines), per)]
+
+    def one(ix):
+        fn = ctx.path("traces", "%s_%d.ndjson" % (name, ix))
+        open(fn, "w").write("\n".join(chunks[ix]) + "\n")
+        return _judge(ctx, "TraceWsStream", "TraceWsStream.cfg", "%s_%d" % (name, ix), {"VERIF_TRACE": fn}, timeout=1500)
+
+    res = _parallel(one, range(len(chunks)), n=8)
+    recs = {}
+    bad, stats, st, tr = [], {}, 0, 0
+    for v, r in res:
+        bad += v["bad"]
+        st, tr = st + r.distinct, tr + r.generated
+        for k, x in v["stats"].items():
+            stats[k] = stats.get(k, 0) + x
+    if bad:
+        want = {b["id"] for b in bad}
+        for x in lines:
+            if any(('"id":"%s"' % w) in x for w in want):
+                e = json.loads(x)
+                recs[e["id"]] = e
+    return bad, recs, stats, st, tr, len(lines)
+
+
+def c39(ctx):
+    # (a) the model: all short message sequences x read sizes; two faulty connections refuted
+    def mc(job):
+        return _design(ctx, "WsStream", job[0], expect_violation=job[1], workers=2)
+    rs = _parallel(mc, [("WsStream.cfg", None), ("WsStream_baddrop.cfg", ("CompleteAtEnd", "PrefixOfStream")),
+                        ("WsStream_badtext.cfg", ("PrefixOfStream", "CompleteAtEnd"))], n=3)
+    states, trans = rs[0].distinct, rs[0].generated
+    # (b) the segmentation table
+    table = ctx.path("gen", "segs.json")
+    maxcuts = 4 if ctx.quick else 15
+    g = ctx.tlc("GenWsStream", "GenWsStream.cfg", name="gen_segs", workers=1, heap="8g", timeout=900,
+                env={"VERIF_MAXCUTS": str(maxcuts), "VERIF_OUT": table})
+    g.require_ok("segmentation table")
+    nseg = len(json.load(open(table)))
+    ctx.log("TLC emitted %d segmentations of the 16-byte CONNECT+PINGREQ stream (at most %d cuts)" % (nseg, maxcuts))
+    vc = _vcomp(ctx)
+    nrand, nsess = (60, 50) if ctx.quick else (600, 2050)
+    # reader level: the harness is the reader behind the real listener (buffers 1, 2, 4096)
+    t1 = ctx.path("traces", "ws_reader.ndjson")
+    ctx.run([vc, "ws-reader", table, t1, str(nrand)], timeout=1500)
+    bad1, recs1, stats1, st, tr, n1 = _c39_judge(ctx, t1, "wsr")
+    states, trans = states + st, trans + tr
+    # broker level: real mqtt.Server, WebSocket and TCP listener, read-buffer sizes 1, 2, 4096
+    t2 = ctx.path("traces", "ws_broker.ndjson")
+    ctx.run([vc, "ws-broker", table, t2, str(nsess), "3000"], timeout=2400)
+    bad2, recs2, stats2, st, tr, n2 = _c39_judge(ctx, t2, "wsb")
+    states, trans = states + st, trans + tr
+    harness_trouble = []
+    for b, recs in [(x, recs1) for x in bad1] + [(x, recs2) for x in bad2]:
+        real = [c for c in b["complaints"] if not c.startswith("harness:") and c != "incomplete"]
+        if not real:
+            harness_trouble.append((b["id"], b["complaints"]))
+            continue
+        if len(ctx.violations) < 10:
+            rec = recs.get(b["id"], {})
+            slim = dict(rec)
+            for k in ("frames", "reads", "echo"):
+                if k in slim and len(json.dumps(slim[k])) > 3000:
+                    slim[k] = slim[k][:12] + ["... %d entries" % len(rec[k])]
+            ctx.violation("%s case %s: WsStream refuses what the real listener did: %s" % (b["kind"], b["id"], ", ".join(b["complaints"])),
+                          {"complaints": b["complaints"], "record": slim, "seed": ctx.seed})
+    ctx.log("TLC judged %d reader records (%d reads) and %d broker records; %d complaints" %
+            (n1, stats1.get("reads", 0), n2, len(bad1) + len(bad2)))
+    if harness_trouble and not ctx.violations:
+        raise Inconclusive("%d cases did not run to completion, e.g. %s" % (len(harness_trouble), harness_trouble[0]))
+    sample_lines = [json.loads(x) for x in open(t1).readlines()[5:7]] + [json.loads(open(t2).readlines()[nseg * 3 + 1])]
+    for smp in sample_lines:
+        for k in ("frames", "reads", "echo", "ws_packets", "tcp_packets", "ws_reply", "tcp_reply"):
+            if k in smp and len(smp[k]) > 6:
+                smp[k] = smp[k][:6] + ["... %d in all" % len(smp[k])]
+    ctx.cov.update(
+        _level="model_checking", states=states, transitions=trans, exhaustive=True,
+        traces_validated_against_impl=n1 + n2, evaluations=stats1.get("reads", 0) + n2,
+        distinct_nontrivial=stats1.get("nontrivial", 0) + stats2.get("nontrivial", 0),
+        rule="WsStream.tla model-checked (all sequences of <= 3 binary/text messages of <= 2 bytes, read sizes 1/2/4; the dropping and the "
+             "text-accepting connection refuted). TLC enumerated %s segmentations of the 16-byte stream CONNECT(14)+PINGREQ(2) (%s) with the stream "
+             "the reader must see. Reader level: a real listeners.Websocket on loopback whose connections are read by the harness with buffers "
+             "of 1, 2 and 4096 bytes, every Read result and every echoed message recorded: %d cases (table x 3 sizes + %d random sequences with "
+             "empty, large and text frames); TLC (TraceWsStream) replays every Read as WsStream!Read(n). Broker level: real mqtt.Server "
+             "(ClientNetReadBufferSize 1, 2, 4096) with WebSocket and TCP listener, gorilla client: table x 3 sizes, %d random sessions "
+             "(CONNECT, SUBSCRIBE, QoS 1/2 publishes + PUBREL, QoS 0 publishes delivered back, payloads 0..5000 bytes, cut into frames of "
+             "1..N<=3000 bytes) and 9 text-frame cases; packets read by the broker (OnPacketRead) and the reply stream must equal the TCP run; "
+             "text frame => connection closed and nothing after it processed. distinct_nontrivial = cases with more than one frame or a frame "
+             "larger than the read buffer." % (nseg, "at most 4 cuts" if ctx.quick else "ALL 2^15", n1, nrand, nsess),
+        samples=sample_lines, segmentations=nseg, reader_cases=n1, broker_cases=n2, text_cases=stats1.get("text", 0) + stats2.get("text", 0))
+    ctx.assumptions += ["the TCP listener is the reference for 'the same packets as over TCP'",
+                        "session replies are made deterministic by phases closed with PINGREQ/PINGRESP sentinels and session-private topics"]
+
+
+FAMILY = {"C41": c41, "C31": c31, "C37": c37, "C39": c39}
